@@ -249,6 +249,24 @@ Theorem format_field_ref_bounds :
 Proof. exact field_ref_spec. Qed.
 Print Assumptions format_field_ref_bounds.
 
+(* the escape branch of the same loop.  The first statement becomes effective when the source tests
+   the character after a backslash (src_format_backslash_guard, the repair proposed for F67); the
+   second one says what the unguarded branch does to a format ending in a lone backslash - a read
+   past the end of the buffer, which the sanitizer build and valgrind report on the current tree *)
+Theorem format_escape_never_overruns :
+  src_format_backslash_guard = true -> forall s, scan_format src_format_backslash_guard s <> ScanOverrun.
+Proof. intros -> s. apply scan_format_guarded. Qed.
+Print Assumptions format_escape_never_overruns.
+
+Theorem format_escape_guarded_never_overruns : forall s, scan_format true s <> ScanOverrun.
+Proof. exact scan_format_guarded. Qed.
+Print Assumptions format_escape_guarded_never_overruns.
+
+Theorem format_trailing_backslash_unguarded_overruns :
+  forall s, Forall (fun c => c <> 92) s -> scan_format false (s ++ [92]) = ScanOverrun.
+Proof. exact scan_format_unguarded_overrun. Qed.
+Print Assumptions format_trailing_backslash_unguarded_overruns.
+
 (* ================= (f) termination of the alias expansion loop ================= *)
 
 (* journal_t::expand_aliases, with what the SOURCE records in already_seen: whatever the alias
